@@ -93,6 +93,7 @@ PROPS = {
         "assumptions": [SAMPLED],
         "guards": ["accepted", "rejected-401", "near-window-boundary"],
         "parts": [{"engine": "front", "test": "TestProp_C17_Inbound", "quick": 2500, "thorough": 250000},
+                  {"engine": "front", "test": "TestProp_C17_InboundConcurrent", "quick": 400, "thorough": 20000, "shards": {"quick": 4, "thorough": 8}, "shrinktime": "5s"},
                   {"engine": "front", "test": "TestProp_C17_OutboundProcess", "quick": 64, "thorough": 2400, "shards": {"quick": 8, "thorough": 16}, "needs_bins": ["hookaido"]}],
     },
     "C09": {
